@@ -354,6 +354,9 @@ func randNum(r *hx.Rng, k numKind) any {
 		if r.Chance(30) {
 			f += float64(r.Intn(5) - 2)
 		}
+		if r.Chance(35) {
+			f = nearMultiple(r)
+		}
 		if k.bits == 32 {
 			f = float64(float32(f))
 		}
@@ -414,6 +417,19 @@ func runNums(o *hx.Out, r *hx.Rng, n int) {
 				meth := hx.Pick(r, []string{"MultipleOf", "Step"})
 				schema = rv.MethodByName(meth).Call([]reflect.Value{reflect.ValueOf(d), reflect.ValueOf(m)})[0].Interface()
 				toks = append(toks, "mul i64 "+strconv.FormatInt(d, 10))
+				continue
+			}
+			if k.float && r.Chance(22) {
+				// Float MultipleOf / Step (the ε-rule) and Int
+				if r.Chance(20) {
+					schema = rv.MethodByName("Int").Call([]reflect.Value{reflect.ValueOf(m)})[0].Interface()
+					toks = append(toks, "isint")
+					continue
+				}
+				d := pickDivisor(r, toF64(in))
+				meth := hx.Pick(r, []string{"MultipleOf", "Step"})
+				schema = rv.MethodByName(meth).Call([]reflect.Value{reflect.ValueOf(d), reflect.ValueOf(m)})[0].Interface()
+				toks = append(toks, "mulf "+strconv.FormatUint(math.Float64bits(d), 10))
 				continue
 			}
 			if r.Chance(10) {
@@ -494,6 +510,44 @@ func runNums(o *hx.Out, r *hx.Rng, n int) {
 			}
 		}
 	}
+}
+
+var divisors = []float64{0.1, 0.25, 0.5, 1, 3, 2.5, -0.1, 1e-7, 1e-11, 3e-10, 0.01, 7, 1e300, 1e-300, 0.3}
+
+// pickDivisor: a divisor from the fixed family, or one derived from the input so that the input sits at,
+// just inside or just outside the ε-band around a multiple (val = k·d·(1 ± δ), δ around 1e-6).
+func pickDivisor(r *hx.Rng, val float64) float64 {
+	switch r.Intn(10) {
+	case 0:
+		return hx.Pick(r, []float64{0, math.Copysign(0, -1), math.Inf(1), math.Inf(-1), math.NaN()})
+	case 1, 2, 3:
+		if val != 0 && !math.IsInf(val, 0) && !math.IsNaN(val) {
+			k := float64(1 + r.Intn(4))
+			delta := hx.Pick(r, []float64{0, 1e-6, 0.999e-6, 1.001e-6, -1e-6, -0.999e-6, -1.001e-6, 1e-7, 1e-16, 0.5, 0.4999999})
+			return val / k * (1 + delta)
+		}
+	}
+	return hx.Pick(r, divisors)
+}
+
+// nearMultiple: an input at / next to / ε away from a multiple of a divisor of the fixed family.
+func nearMultiple(r *hx.Rng) float64 {
+	d := hx.Pick(r, divisors)
+	k := float64(r.Intn(12) - 3)
+	v := k * d
+	switch r.Intn(8) {
+	case 0:
+		v = math.Nextafter(v, math.Inf(1))
+	case 1:
+		v = math.Nextafter(v, math.Inf(-1))
+	case 2:
+		v += math.Abs(d) * hx.Pick(r, []float64{1e-6, 0.999e-6, 1.001e-6, -1e-6, -0.999e-6, -1.001e-6})
+	case 3:
+		v += hx.Pick(r, []float64{1e-10, 0.99e-10, 1.01e-10, -1e-10, -0.99e-10})
+	case 4:
+		v += d / 2
+	}
+	return v
 }
 
 func toF64(v any) float64 {
